@@ -69,22 +69,22 @@ mutual
 no NaN, no non-empty tuple, enums are module-level, QName text needs no
 escaping, opaque values print their class by its qualified name, dict keys
 are hashable, `init=False` attributes are at their default. -/
-def valOK (W : World) : Val → Bool
+def valOK (cfg : Cfg) (W : World) : Val → Bool
   | .float n _ => notNan (some n)
   | .opaque c callee _ n => notNan n && callee == c.path
-  | .qname t => plainDq t
-  | .enum c _ => c.path.length == 1
-  | .tuple xs => xs.isEmpty
-  | .list xs => valOKL W xs
-  | .dict kvs => valOKKV W kvs
-  | .model c attrs => initFalseOK (W.fieldsOf c) attrs && valOKL W attrs
+  | .qname t _ => cfg.qnameFix || plainDq t
+  | .enum c _ => cfg.enumFix || c.path.length == 1
+  | .tuple xs => (cfg.tupleFix || xs.isEmpty) && valOKL cfg W xs
+  | .list xs => valOKL cfg W xs
+  | .dict kvs => valOKKV cfg W kvs
+  | .model c attrs => initFalseOK (W.fieldsOf c) attrs && valOKL cfg W attrs
   | _ => true
-def valOKL (W : World) : List Val → Bool
+def valOKL (cfg : Cfg) (W : World) : List Val → Bool
   | [] => true
-  | x :: xs => valOK W x && valOKL W xs
-def valOKKV (W : World) : List (Val × Val) → Bool
+  | x :: xs => valOK cfg W x && valOKL cfg W xs
+def valOKKV (cfg : Cfg) (W : World) : List (Val × Val) → Bool
   | [] => true
-  | (k, v) :: r => hashable k && valOK W k && valOK W v && valOKKV W r
+  | (k, v) :: r => hashable k && valOK cfg W k && valOK cfg W v && valOKKV cfg W r
 end
 
 mutual
@@ -111,30 +111,34 @@ end
 mutual
 /-- the value stays clear of the three value-level defects of the serializer:
 no member of an enum nested in a class, no non-empty tuple, no QName whose
-text contains a backslash, a double quote, CR, LF or NUL -/
-def clean : Val → Bool
-  | .enum c _ => c.path.length == 1
-  | .tuple xs => xs.isEmpty
-  | .qname t => plainDq t
-  | .list xs => cleanL xs
-  | .dict kvs => cleanKV kvs
-  | .model _ attrs => cleanL attrs
+text contains a backslash, a double quote, CR, LF or NUL (each exclusion is
+lifted when `cfg` applies the corresponding repair) -/
+def clean (cfg : Cfg) : Val → Bool
+  | .enum c _ => cfg.enumFix || c.path.length == 1
+  | .tuple xs => (cfg.tupleFix || xs.isEmpty) && cleanL cfg xs
+  | .qname t _ => cfg.qnameFix || plainDq t
+  | .list xs => cleanL cfg xs
+  | .dict kvs => cleanKV cfg kvs
+  | .model _ attrs => cleanL cfg attrs
   | _ => true
-def cleanL : List Val → Bool
+def cleanL (cfg : Cfg) : List Val → Bool
   | [] => true
-  | x :: xs => clean x && cleanL xs
-def cleanKV : List (Val × Val) → Bool
+  | x :: xs => clean cfg x && cleanL cfg xs
+def cleanKV (cfg : Cfg) : List (Val × Val) → Bool
   | [] => true
-  | (k, v) :: r => clean k && clean v && cleanKV r
+  | (k, v) :: r => clean cfg k && clean cfg v && cleanKV cfg r
 end
 
 /-- every import that binds the first name of a reference comes from the
 module of the class the reference means -/
-def importsOKe (e : PyExpr) : Bool :=
-  e.refs.all fun pc => e.types.all fun t =>
+def importsOKe (cfg : Cfg) (e : PyExpr) : Bool :=
+  (e.refs cfg).all fun pc => e.types.all fun t =>
     t.module == builtinsMod || t.path.headD [] != pc.1.headD [] || t.module == pc.2.module
 
-def importsOK (W : World) (v : Val) : Bool := importsOKe (render W v)
+def importsOKC (cfg : Cfg) (W : World) (v : Val) : Bool := importsOKe cfg (render W v)
+
+/-- for the code under test -/
+abbrev importsOK := importsOKC Cfg.asIs
 
 /-- all references of `e` resolve in `env` to the classes they mean -/
 def EnvGood (W : World) (env : Env) (refs : List (List Str × ClsRef)) : Prop :=
